@@ -8,14 +8,14 @@ from __future__ import annotations
 
 import json
 
-from .. import common, genrun, instgen, refmodel, specgen
+from .. import common, genrun, instgen, refmodel, richgen, shapes, specgen
 from ..common import Ctx
 
 LEVEL = "exploration"
 SHARDS = {"quick": 16, "thorough": 16}
 FLOOR = {"quick": 900, "thorough": 40000}
 REQUIRED_COUNTERS = ["roundtrips", "models_exercised", "instances_min", "instances_max", "instances_nulls",
-                     "wire_keys_checked", "formatted_values_checked"]
+                     "wire_keys_checked", "formatted_values_checked", "rich_roundtrips", "shapes_roundtrips"]
 RULE = ("generated models of documents from the grammar (nested objects, lists, maps, nullable, formats date-time/date/uuid/time/byte/"
         "email/uri/hostname, enums, inline objects, allOf, 7 property-name styles) x instances (required-only, all properties, random "
         "subsets, explicit nulls); case = (model, instance); non-trivial = instance has a nested container, formatted leaf or renamed key")
@@ -50,7 +50,7 @@ def run_doc(ctx: Ctx, it: dict) -> None:
     if rts is None:
         rts = []
         for name, e in d.sexp.items():
-            if e["kind"] not in ("object", "array_alias"):
+            if e["kind"] not in ("object", "array_alias", "map_alias"):
                 continue
             for k in range(len(MODES) * (1 if ctx.quick else 3)):
                 mode = MODES[k % len(MODES)]
@@ -76,15 +76,31 @@ def run_doc(ctx: Ctx, it: dict) -> None:
     models = set()
     # keys for which "absent == null" is tolerated: declared property names (never the keys of a map)
     prop_names: set[str] = set()
-    for e in d.sexp.values():
+
+    def collect(e: dict) -> None:
         for pn, pe in (e.get("props") or {}).items():
             prop_names.add(pn)
-            prop_names.update((pe.get("props") or {}).keys())
+            collect(pe)
+        for sub in ("items", "values"):
+            if isinstance(e.get(sub), dict):
+                collect(e[sub])
+    for e in d.sexp.values():
+        collect(e)
+    model_feats = getattr(d, "model_feats", None) or it.get("model_feats") or {}
+    phase = it.get("phase", "")
     for r in rts:
         o = po["results"].get(r["id"])
         if o is None:
             continue
-        case = dict(case_base, roundtrip={"model": r["model"], "json": r["json"]})
+        feats = sorted(d.features)
+        case = dict(case_base, roundtrip={"model": r["model"], "json": r["json"]}, phase=phase)
+        if model_feats:
+            # rich grammar: a violation is attributed to the shapes inside THIS model, not to the whole document
+            feats = list(model_feats.get(r["model"], [])) + [phase or "rich"]
+            case["model_feats"] = model_feats
+            rec.count(f"{phase or 'rich'}_roundtrips")
+            if phase == "shapes":
+                rec.seen("shapes_exercised", d.sexp[r["model"]].get("shape"))
         rec.case({"d": common.chash(d.doc), "m": r["model"], "j": r["json"]}, nontrivial=instgen.nontrivial(r["json"]))
         rec.count("roundtrips")
         rec.count(f"instances_{r.get('_mode', 'x')}")
@@ -103,17 +119,27 @@ def run_doc(ctx: Ctx, it: dict) -> None:
                 cls = "forward_ref_unresolved"
             elif "Unsupported type" in full:
                 cls = "unsupported_type"
+            elif phase:
+                line = full.split("\n")[1 if "\n" in full else 0]
+                line = re.sub(r"^- [^:]*: ", "", line)
+                line = re.sub(r"c\d+\.models\.[\w.]+", "<model>", line)
+                line = re.sub(r"(into|of) .*", r"\1 <type>", line)
+                cls = re.sub(r"'[^']*'", "'…'", line)[:60]
             else:
                 line = full.split("\n")[1 if "\n" in full else 0]
                 line = re.sub(r"'[^']*'", "'…'", line)
                 line = re.sub(r"^- [^:]*: ", "- <field>: ", line)
                 cls = re.sub(r"\d+", "N", line)[:70]
-            rec.violation(f"roundtrip:{o['stage']}_raises:{e['type']}:{cls}", feats, case, full[:400])
+            rec.violation(f"{phase + ':' if phase else ''}roundtrip:{o['stage']}_raises:{e['type']}:{cls}", feats, case, full[:400])
+            if phase == "shapes":
+                rec.seen("shapes_failing", d.sexp[r["model"]].get("shape"))
             continue
         diff = refmodel.jdiff(r["json"], o["back"], optional_keys=prop_names)
         if diff:
             kind = "key_lost" if "lost" in diff else ("unexpected_key" if "unexpected key" in diff else "value_differs")
-            rec.violation(f"roundtrip:{kind}", feats, case, diff[:300])
+            rec.violation(f"{phase + ':' if phase else ''}roundtrip:{kind}", feats, case, diff[:300])
+            if phase == "shapes":
+                rec.seen("shapes_failing", d.sexp[r["model"]].get("shape"))
     rec.count("models_exercised", len(models))
     for f in d.features:
         rec.seen("features", f)
@@ -141,6 +167,17 @@ def run_shard(ctx: Ctx) -> None:
         elif r < 0.2:
             trig = TRIGGERS[1]
         run_doc(ctx, {"doc": mk_doc(ctx, trig), "n": ctx.shard * 100000 + b})
+    # second grammar: compositional type expressions (nullable anything, arrays of arrays, maps of maps / arrays / models,
+    # nested inline objects, free-form positions, named maps, named primitive aliases)
+    for b in range(4 if ctx.quick else 80):
+        allow = {"object_with_extras"} if ctx.rng.random() < 0.25 else set()
+        run_doc(ctx, {"doc": richgen.generate(ctx.rng, allow=allow), "n": ctx.shard * 100000 + 50000 + b, "phase": "rich"})
+    # third workload: the exhaustive shape catalogue (every wrapper(wrapper(leaf)) up to two wrappers; thorough: three)
+    cat = list(enumerate(shapes.all_shapes(2 if ctx.quick else 3)))
+    chunks = [cat[i:i + 20] for i in range(0, len(cat), 20)]
+    for ci, chunk in enumerate(chunks):
+        if ctx.mine(ci):
+            run_doc(ctx, {"doc": shapes.document(chunk), "n": ctx.shard * 100000 + 70000 + ci, "phase": "shapes"})
 
 
 def replay(ctx: Ctx, file: dict) -> None:
@@ -148,4 +185,5 @@ def replay(ctx: Ctx, file: dict) -> None:
     c = file["case"]
     d = specgen.Doc(c["doc"], c["sexp"], [], set(c["features"]))
     rt = c["roundtrip"]
-    run_doc(ctx, {"doc": d, "n": 1, "roundtrips": [{"id": "r0", "model": rt["model"], "json": rt["json"], "_mode": "x"}]})
+    run_doc(ctx, {"doc": d, "n": 1, "model_feats": c.get("model_feats"), "phase": c.get("phase", ""),
+                  "roundtrips": [{"id": "r0", "model": rt["model"], "json": rt["json"], "_mode": "x"}]})
